@@ -175,6 +175,18 @@ mod verif_standins {
                     assert!(!published.contains(&(*z - c * sec)), "STANDIN PayProof::new: the {} is exposed: it equals (response {} - a published commitment scalar) / challenge", what, zi);
                 }
             }
+            // every digit proof of the two range constraints shows its own blinded, re-randomised signature and commitment:
+            // equal material in two positions reveals which digits of the hidden balances coincide
+            let mut shown: Vec<Vec<u8>> = Vec::new();
+            for rc in [bincode::serialize(&proof.customer_balance_proof).unwrap(), bincode::serialize(&proof.merchant_balance_proof).unwrap()] {
+                assert_eq!(rc.len() % 9, 0, "STANDIN: unexpected range-constraint encoding");
+                let w = rc.len() / 9;
+                for j in 0..9 { shown.push(rc[j * w..j * w + 96 + 96].to_vec()); }
+            }
+            for i in 0..shown.len() { for j in 0..i {
+                assert!(shown[i][..48] != shown[j][..48], "STANDIN PayProof::new: digit proofs {} and {} show the same blinded signature element (balances {} / {})", j, i, new.customer_balance().into_inner(), new.merchant_balance().into_inner());
+                assert!(shown[i][96..] != shown[j][96..], "STANDIN PayProof::new: digit proofs {} and {} show the same commitment", j, i);
+            } }
         }
     }
 
